@@ -705,6 +705,7 @@ def fixed_setups():
                                          "ranks": [1, 1], "p": [_task([], 2, 1, 3), _task([], 2, 1, 7)]}, 1, [], 2, [], 2)
     S_["RBFGrad[2] x[2]"] = (_rbf([2], name="RBFGrad"), 1, [2], 2, [2], 2)
     S_["Matern52Grad[] x[2]"] = (_rbf(name="Matern52Grad"), 1, [2], 2, [2], 2)
+    S_["PolyGrad[2] x[]x[2]"] = ({"k": "PolyGrad", "power": 2, "batch": [2], "ad": None, "d": 1, "p": {"offset": [[0.5], [1.25]]}}, 1, [], 2, [2], 2)
     S_["RBF[2,1] x[2,2]"] = (_rbf([2, 1], d=1), 1, [2, 2], 2, [2, 2], 2)
     # --- batch rank 2 (kernel[idx] enumeration)
     S_["RBF[3,2]/ad x[3,2]"] = (_rbf([3, 2], ad=[1], d=1), 2, [3, 2], 2, [3, 2], 2)
@@ -1248,8 +1249,16 @@ SPEC = PropertySpec(
     assumptions=[
         "float64, CPU, non-KeOps; last_dim_is_batch (deprecated) not exercised",
         "the oracle is the dense matrix kernel(x1, x2).to_dense() transformed with plain torch; kernel values themselves are C05's subject",
-        "negative integer indices on the two matrix dimensions are excluded: linear_operator's LinearOperator.__getitem__ maps them to "
-        "slice(-1, 0) for every operator class (dependency outside /repo); they are generated only in the enumeration and counted",
+        "excluded, dependency (linear_operator, outside /repo), generated only in the enumeration and counted under idx.excluded=*: negative "
+        "integer indices on the two matrix dimensions (LinearOperator.__getitem__ maps them to slice(-1, 0) for every operator class); an "
+        "integer on one matrix dimension combined with index tensors that absorb the matrix dimensions (LinearOperator.__getitem__ squeezes "
+        "the wrong dimension; DenseLinearOperator raises its own 'this is a bug' error)",
+        "not generated, dependency: -1 ('keep') for a batch dimension in LinearOperator.expand (_expand_batch computes -1 // size for every "
+        "operator); a ScaleKernel of batch shape (1,)/(1,1) over a LinearOperator-valued base kernel (Linear, Multitask, LCM): "
+        "linear_operator's mul treats the one-element outputscale as a python scalar and drops the leading 1-dimensions",
+        "sub-kernels of a composed kernel carry the batch shape of the parent, the same rank with 1-extents, or none; a sub-kernel of lower "
+        "non-zero batch rank cannot be indexed alongside its parent by Kernel.__getitem__ (the same index tuple is handed to every node) - "
+        "not covered",
         "kernels with a kink at r = 0 are compared at atol 1e-6 (two routes centre the quadratic-expansion distance differently), others at 1e-11",
         "InducingPointKernel is not a function of point pairs (the diagonal correction depends on torch.equal(x1, x2)); it takes part in the "
         "active_dims relation only",
